@@ -4,6 +4,7 @@ package main
 // generators of terms and acyclic substitutions, and an independent reference unifier used as a direct oracle.
 
 import (
+	"math"
 	"fmt"
 	"math/big"
 	"math/rand"
@@ -98,6 +99,15 @@ var termAtoms = []func() *ast.SExpr{
 	func() *ast.SExpr { return ast.NewString("a") },
 	func() *ast.SExpr { return nil },
 	func() *ast.SExpr { return ast.NewFloat(0.5) },
+	// atoms that only a content-exact comparison tells apart: integers beyond float64 precision, extreme integers,
+	// an int / a float / a string / a symbol that print alike
+	func() *ast.SExpr { return ast.NewInt(1 << 53) },
+	func() *ast.SExpr { return ast.NewInt(1<<53 + 1) },
+	func() *ast.SExpr { return ast.NewInt(math.MaxInt64) },
+	func() *ast.SExpr { return ast.NewInt(math.MinInt64) },
+	func() *ast.SExpr { return ast.NewFloat(1) },
+	func() *ast.SExpr { return ast.NewString("1") },
+	func() *ast.SExpr { return ast.NewSymbol("1") },
 }
 
 // genTerm generates a term over variables 0..nv-1.
